@@ -325,6 +325,9 @@ def explore_sp_special(case):
         res.count("refused")
     with contextlib.redirect_stdout(io.StringIO()):
         e_ca, symbols = S.sympy_to_casadi(sympy.sin(X) + sympy.cos(X) / 2)
+    if "x" not in symbols:
+        res.fail(site="sympy_to_casadi", clause="symbol_table_consistent", cls="f_dict_sequence", detail=dict(expr="sin(x) + cos(x)/2", symbols=list(symbols)), sub="special", case=case)
+        return res
     got = float(np.array(ca.Function("f", [symbols["x"]], [ca.SX(e_ca)])(2.3)).reshape(-1)[0])
     res.count("evaluations")
     if abs(got - (math.sin(2.3) + math.cos(2.3) / 2)) > 1e-12:
@@ -361,8 +364,12 @@ def explore_sp_special(case):
             continue
         leftover = [n for n in symbols if n not in ("x", "y")]
         free = [v.name() for v in ca.symvar(ca.SX(e_ca))]
-        if leftover or any(n not in ("x", "y") for n in free):
-            res.fail(site="sympy_to_casadi", clause="symbol_table_consistent", cls="cse_nested", detail=dict(expr=str(src), symbols=list(symbols), free=free), sub="special", case=case)
+        # the table must hold exactly the variables of the source, and every free variable of the result must be the table's object
+        missing = [n for n in ("x", "y") if n not in symbols]
+        foreign = [v.name() for v in ca.symvar(ca.SX(e_ca)) if not any(ca.is_equal(v, symbols[k]) for k in symbols)]
+        if leftover or missing or foreign or any(n not in ("x", "y") for n in free):
+            res.fail(site="sympy_to_casadi", clause="symbol_table_consistent", cls="cse_nested", detail=dict(expr=str(src), symbols=list(symbols), free=free, missing=missing, not_in_table=foreign),
+                     sub="special", case=case)
             continue
         f = ca.Function("f", [symbols["x"], symbols["y"]], [ca.SX(e_ca)])
         for xv, yv in ((0.5, 2.0), (-1.25, 3.75)):
